@@ -89,7 +89,13 @@ def returned(fn, env, tu, depth=0):
         if t.kind == "CallExpr" and t.callee in tu.functions and depth < 4:
             callee = tu.functions[t.callee]
             ps = [p.name for p in callee.children if p.kind == "ParmVarDecl"]
-            args = {p: ev(a, env2) for p, a in zip(ps, t.args)}
+            args = {}
+            for p, a in zip(ps, t.args):
+                a_ = a.strip(casts=True)
+                if a_.kind == "CallExpr" and a_.callee in tu.functions:
+                    args[p] = val(a_)       # an argument computed by another function of the unit
+                else:
+                    args[p] = ev(a, env2)
             return returned(callee, args, tu, depth + 1)[0]
         m = re.search(r"H5T_[A-Z0-9_]+", t.nsrc)
         if m:
